@@ -21,13 +21,19 @@ impl ExecutionFrontier {
     fn advance(&self, mut start: usize) {
         loop {
             let mut end = start;
+            #[cfg(feature = "verif-hooks")]
+            crate::verif::rt::pt1("frontier_scan", start);
             while end < self.executed.len() && self.executed[end].load(Ordering::Acquire) {
                 end += 1;
+                #[cfg(feature = "verif-hooks")]
+                crate::verif::rt::pt1("frontier_scan", end);
             }
             if end == start {
                 return;
             }
 
+            #[cfg(feature = "verif-hooks")]
+            crate::verif::rt::pt2("frontier_fetch_max", start, end);
             let current = self.frontier.fetch_max(end, Ordering::AcqRel);
             start = max(current, end);
         }
@@ -38,14 +44,20 @@ impl ExecutionFrontier {
     /// Only the transaction that fills the current gap attempts to advance the frontier.
     /// A single atomic update publishes the whole contiguous run that is already complete.
     fn publish(&self, index: usize) {
+        #[cfg(feature = "verif-hooks")]
+        crate::verif::rt::pt1("frontier_load1", index);
         let frontier = self.frontier.load(Ordering::Acquire);
         if index < frontier {
             return;
         }
 
+        #[cfg(feature = "verif-hooks")]
+        crate::verif::rt::pt1("frontier_set_executed", index);
         self.executed[index].store(true, Ordering::Release);
         // Reload after publishing. The frontier may have reached `index` between the first load
         // and the store; using the stale value would leave the newly filled gap unadvanced.
+        #[cfg(feature = "verif-hooks")]
+        crate::verif::rt::pt1("frontier_load2", index);
         let frontier = self.frontier.load(Ordering::Acquire);
         if index == frontier {
             self.advance(frontier);
@@ -106,7 +118,11 @@ impl SchedulerContext {
         // Publish invalidation before making the index claimable. Finality advances contiguously
         // and checks status plus this timestamp under transaction locks, so a validation predating
         // this rewind cannot enter the stable prefix afterward.
+        #[cfg(feature = "verif-hooks")]
+        crate::verif::rt::pt1("rewind_ts", index);
         let timestamp = self.logical_clock.fetch_add(1, Ordering::AcqRel);
+        #[cfg(feature = "verif-hooks")]
+        crate::verif::rt::pt2("rewind_lts", index, timestamp);
         self.lower_timestamps[index].fetch_max(timestamp, Ordering::AcqRel);
         let previous = self.validation.rewind(index);
         if previous > index {
@@ -116,6 +132,8 @@ impl SchedulerContext {
 
     #[inline]
     pub(super) fn logical_timestamp(&self) -> usize {
+        #[cfg(feature = "verif-hooks")]
+        crate::verif::rt::pt("val_ts");
         self.logical_clock.fetch_add(1, Ordering::AcqRel)
     }
 
@@ -126,6 +144,8 @@ impl SchedulerContext {
 
     #[inline]
     pub(super) fn unconfirmed(&self, index: usize, timestamp: usize) {
+        #[cfg(feature = "verif-hooks")]
+        crate::verif::rt::pt2("uts", index, timestamp);
         self.unconfirmed_timestamps[index].fetch_max(timestamp, Ordering::AcqRel);
     }
 
